@@ -28,6 +28,17 @@ def impl_call(case):
     def f():
         sp = O.build_prim(case['src'])
         band = O.build_prim(case['band'])
+        for pr in case.get('prior', []):
+            # what the same operand objects were asked before must not matter: results discarded
+            try:
+                w = np.array([O.fl(x) for x in pr['wl']])
+                obj = band if pr['on'] == 'band' else sp
+                if pr['m'] == 'call':
+                    obj(w)
+                else:
+                    getattr(obj, pr['m'])(wavelengths=w)
+            except Exception:   # noqa
+                pass
         xs = np.array([O.fl(x) for x in case['xs']])
         before = sp(xs).value.copy()
         kw = {'force': case['force']}
@@ -237,6 +248,12 @@ def gen_case(rng, K, thorough):
         c['wl'] = qs(O.sample_grid(rng, rng.randint(3, 12), 1500, 9000))
     if placed is not None:
         c['_placed'] = placed
+    if rng.random() < 0.4:
+        # earlier queries on the very objects handed to normalize(), on explicit coarse grids
+        c['prior'] = [{'on': rng.choice(['band', 'band', 'src']), 'm': None,
+                       'wl': qs(O.sample_grid(rng, rng.randint(2, 6), 1500, 9000))} for _ in range(rng.randint(1, 2))]
+        for pr in c['prior']:
+            pr['m'] = rng.choice(['pivot', 'avgwave', 'barlam', 'integrate', 'call']) if pr['on'] == 'band' else rng.choice(['integrate', 'avgwave', 'call'])
     return c
 
 
@@ -250,7 +267,7 @@ def run(rep):
     cases += [gen_case(rng, K, thorough) for _ in range(15000 if thorough else 1500)]
     rep.rule = ('sources (tables, constants, boxes, trapezoids, power laws, redshifted and flux-conserving redshifted) x bandpasses '
                 '(tables, boxes) x targets in FLAM, FNU, Jy, mJy, STmag, ABmag, PHOTLAM, PHOTNU, count, OBMAG (with/without area), '
-                'VEGAMAG (with/without Vega) over 110 binary decades x force x explicit / implicit sampling wavelengths. '
+                'VEGAMAG (with/without Vega) over 110 binary decades x force x explicit / implicit sampling wavelengths; 40% after 1-2 earlier queries (pivot, avgwave, barlam, integrate, sampling on explicit coarse grids) on the same operand objects; a quarter on graded / disjoint placements. '
                 'Non-trivial: a normalised spectrum was returned.')
 
     def tags(c, o):
